@@ -196,3 +196,22 @@ func VF_C19_f() {
 	vf.Observe("bytes", b)
 	vf.Observe("readerr", err == nil)
 }
+
+// ---------------------------------------------------------------------------------------------
+// C19.f.make: MakeChainId(cid, v) (used to derive the chain id of the next block from the previous header) returns
+// version(v) || cid[4:] and leaves the bytes of its argument — the previous block's header field, to which that block's
+// cached id commits — untouched, for every content and every version, also when the versions differ.
+func VF_C19_f_make() {
+	n := 4 + vf.Choice("tail.len", vf.Param("maxLen", 3)+1)
+	cid := vf.Bytes("cid", n)
+	before := append([]byte(nil), cid...)
+	v := vf.I32("v")
+	out := MakeChainId(cid, v)
+	vf.Reach("C19.f.make")
+	vf.Assert(bytes.Equal(cid, before), "C19.f.make") // the caller's slice (a header field of another block) is not rewritten
+	vf.Assert(len(out) == n, "C19.f.make")
+	vf.Assert(DecodeChainIdVersion(out) == v, "C19.f.make")
+	vf.Assert(bytes.Equal(out[4:], before[4:]), "C19.f.make")
+	vf.Assert(ChainIdEqualWithoutVersion(out, before), "C19.f.make")
+	vf.Observe("out", out)
+}
